@@ -180,3 +180,26 @@ env_proof! { unwind = 22, rot = ghost, crc = real, fn c11_journal_bytes_append()
 env_proof! { unwind = 22, rot = ghost, crc = real, fn c11_journal_bytes_commit() { journal_bytes(2); } }
 // @harness name=c11_journal_bytes_purge prop=C11 tier=thorough timeout=1200 fs=128
 env_proof! { unwind = 22, rot = ghost, crc = real, fn c11_journal_bytes_purge() { journal_bytes(3); } }
+
+// The Config accessors (stubbed by ghost constants in every other harness,
+// DESIGN 3.4) are what their documentation says: the field, or the default.
+// @harness name=c11_cfg_accessors prop=C11 tier=quick timeout=300
+#[kani::proof]
+fn c11_cfg_accessors() {
+    let c = crate::Config {
+        dir: String::new(),
+        log_cache_max_items: kani::any(),
+        log_cache_capacity: kani::any(),
+        read_buffer_size: kani::any(),
+        chunk_max_records: kani::any(),
+        chunk_max_size: kani::any(),
+        truncate_incomplete_record: kani::any(),
+    };
+    assert!(c.chunk_max_records() == c.chunk_max_records.unwrap_or(1024 * 1024));
+    assert!(c.chunk_max_size() == c.chunk_max_size.unwrap_or(1024 * 1024 * 1024));
+    assert!(c.log_cache_max_items() == c.log_cache_max_items.unwrap_or(100_000));
+    assert!(c.log_cache_capacity() == c.log_cache_capacity.unwrap_or(1024 * 1024 * 1024));
+    assert!(c.read_buffer_size() == c.read_buffer_size.unwrap_or(64 * 1024 * 1024));
+    kani::cover!(c.chunk_max_records.is_none(), "default limit");
+    core::mem::forget(c);
+}
